@@ -198,156 +198,231 @@ theorem nd_slice_some (inp : Bytes) (a n i : Nat) (h : i < n) : nd (some i) (sli
   have := nd_some_in i (slice inp a n) 0 (Nat.zero_le _) (by simpa using h)
   simpa using this
 
-/-- every store of the composition (before the final NUL) has an index `≤ buf_len`, i.e. inside the `buf_len + 1`
-    allocated bytes, and every length handed to `memset` / the copy loop is non-negative -/
-theorem compose_bounds (inp : Bytes) (p : Prep) (h : PrepOk p) :
-    (∀ w ∈ (compose inp p).2.1, (w.1 : Int) < (compose inp p).1 + 1) ∧ (∀ l ∈ (compose inp p).2.2, 0 ≤ l) := by
+/-- the bound a branch must meet: stores at indices `≤ buf_len` (inside the `buf_len + 1` allocated bytes), lengths `≥ 0` -/
+def Bounded (c : Composed) : Prop := (∀ w ∈ c.2.1, (w.1 : Int) < c.1 + 1) ∧ (∀ l ∈ c.2.2, 0 ≤ l)
+
+theorem composeB1_bounds (inp : Bytes) (p : Prep) (h : PrepOk p) (hdp : p.dp ≤ 0) : Bounded (composeB1 inp p) := by
   obtain ⟨hm, hnl, hdec, hlz, hdot⟩ := h
   unfold dotOf at hdot
-  unfold compose
+  unfold Bounded composeB1
   simp only []
-  split
-  · -- dp ≤ 0: "0." zeros digits
-    rename_i hdp
-    have hsnd : (copyNumPart (slice inp p.numOff p.numLen) p.decIdx (-1) (p.m + 2 + p.dp.natAbs)).2 =
-        nd p.decIdx (slice inp p.numOff p.numLen) 0 := by
-      rw [copyNumPart_snd]; simp
-    have hb := copyNumPart_bound (slice inp p.numOff p.numLen) p.decIdx (-1) (p.m + 2 + p.dp.natAbs)
+  have hsnd : (copyNumPart (slice inp p.numOff p.numLen) p.decIdx (-1) (p.m + 2 + p.dp.natAbs)).2 =
+      nd p.decIdx (slice inp p.numOff p.numLen) 0 := by
+    rw [copyNumPart_snd]; simp
+  have hb := copyNumPart_bound (slice inp p.numOff p.numLen) p.decIdx (-1) (p.m + 2 + p.dp.natAbs)
+  constructor
+  · intro w hw
+    simp only [List.mem_append, List.mem_cons, List.not_mem_nil, or_false] at hw
+    have hnd : (nd p.decIdx (slice inp p.numOff p.numLen) 0 : Int) ≤ p.dot + p.numLen := by
+      cases hd : p.decIdx with
+      | none => simp [hd] at hdot; rw [nd_slice_none]; omega
+      | some i =>
+        have hi := hdec i hd
+        have := nd_slice_some inp p.numOff p.numLen i hi
+        rw [hd] at hdot
+        simp only [Option.isSome_some, Bool.true_and, if_true] at hdot
+        split at hdot <;> omega
+    rcases hw with ((hw | hw | hw) | hw) | hw
+    · have := minusW_bound p.m w hw; omega
+    · subst hw; simp; omega
+    · subst hw; simp; omega
+    · have := memsetW_bound _ _ _ w hw; omega
+    · have := hb w hw; rw [hsnd] at this; omega
+  · intro l hl
+    simp at hl
+    rcases hl with rfl | rfl <;> omega
+
+/-- the branch of F14 as it is in 3.7.8: the last store reaches index `buf_len` — still inside the allocation -/
+theorem composeB2orig_bounds (inp : Bytes) (p : Prep) (h : PrepOk p) (hdp : 0 < p.dp)
+    (hl : p.leadingZero = true) (hlt : p.dp < p.numLen) : Bounded (composeB2orig inp p) := by
+  obtain ⟨hm, hnl, hdec, hlz, hdot⟩ := h
+  unfold Bounded composeB2orig
+  simp only []
+  have hd0 := hlz hl
+  have h1 : 1 ≤ p.numLen := by have := hdec 0 hd0; omega
+  have hnl' : (p.numLen + 65535) % 65536 = p.numLen - 1 := by omega
+  simp only [hnl']
+  have hz := countFwd_le inp (p.numOff + 1) (p.numOff + 1 + (p.dp - 1 + 1).toNat)
+  have hz' : (countFwd inp (p.numOff + 1) (p.numOff + 1 + (p.dp - 1 + 1).toNat) : Int) ≤ p.dp := by omega
+  generalize countFwd inp (p.numOff + 1) (p.numOff + 1 + (p.dp - 1 + 1).toNat) = z at hz'
+  by_cases hall : (z : Int) = p.dp - 1 + 1
+  · simp only [hall, beq_self_eq_true, if_true]
+    have hsnd := copyNumPart_snd (slice inp (p.numOff + 1 + (p.dp - 1 + 1 - 1).toNat) ((↑(p.numLen - 1) : Int) - (p.dp - 1 + 1 - 1)).toNat) none 1 p.m
+    have hb := copyNumPart_bound (slice inp (p.numOff + 1 + (p.dp - 1 + 1 - 1).toNat) ((↑(p.numLen - 1) : Int) - (p.dp - 1 + 1 - 1)).toNat) none 1 p.m
+    rw [nd_slice_none] at hsnd
     constructor
     · intro w hw
-      simp only [List.mem_append, List.mem_cons, List.not_mem_nil, or_false] at hw
-      have hnd : (nd p.decIdx (slice inp p.numOff p.numLen) 0 : Int) ≤ p.dot + p.numLen := by
-        cases hd : p.decIdx with
-        | none => simp [hd] at hdot; rw [nd_slice_none]; omega
-        | some i =>
-          have hi := hdec i hd
-          have := nd_slice_some inp p.numOff p.numLen i hi
-          rw [hd] at hdot
-          simp only [Option.isSome_some, Bool.true_and, if_true] at hdot
-          split at hdot <;> omega
-      rcases hw with ((hw | hw | hw) | hw) | hw
+      simp only [List.mem_append] at hw
+      rcases hw with hw | hw
       · have := minusW_bound p.m w hw; omega
-      · subst hw; simp; omega
-      · subst hw; simp; omega
-      · have := memsetW_bound _ _ _ w hw; omega
-      · have := hb w hw; rw [hsnd] at this; omega
-    · intro l hl
-      simp at hl
-      rcases hl with rfl | rfl <;> omega
-  · rename_i hdp
-    have hdp : 0 < p.dp := by omega
-    split
-    · -- leading zero, point inside the digits (the branch of F14)
-      rename_i hc
-      simp only [Bool.and_eq_true, decide_eq_true_eq] at hc
-      obtain ⟨hl, hlt⟩ := hc
-      have hd0 := hlz hl
-      have h1 : 1 ≤ p.numLen := by have := hdec 0 hd0; omega
-      have hnl' : (p.numLen + 65535) % 65536 = p.numLen - 1 := by omega
-      simp only [hnl']
-      have hz := countFwd_le inp (p.numOff + 1) (p.numOff + 1 + (p.dp - 1 + 1).toNat)
-      have hz' : (countFwd inp (p.numOff + 1) (p.numOff + 1 + (p.dp - 1 + 1).toNat) : Int) ≤ p.dp := by omega
-      generalize countFwd inp (p.numOff + 1) (p.numOff + 1 + (p.dp - 1 + 1).toNat) = z at hz'
-      by_cases hall : (z : Int) = p.dp - 1 + 1
-      · simp only [hall, beq_self_eq_true, if_true]
-        have hsnd := copyNumPart_snd (slice inp (p.numOff + 1 + (p.dp - 1 + 1 - 1).toNat) ((↑(p.numLen - 1) : Int) - (p.dp - 1 + 1 - 1)).toNat) none 1 p.m
-        have hb := copyNumPart_bound (slice inp (p.numOff + 1 + (p.dp - 1 + 1 - 1).toNat) ((↑(p.numLen - 1) : Int) - (p.dp - 1 + 1 - 1)).toNat) none 1 p.m
-        rw [nd_slice_none] at hsnd
-        constructor
-        · intro w hw
-          simp only [List.mem_append] at hw
-          rcases hw with hw | hw
-          · have := minusW_bound p.m w hw; omega
-          · have := hb w hw; rw [hsnd] at this
-            split at this <;> omega
-        · intro l hl; simp at hl; omega
-      · have hne : ((z : Int) == p.dp - 1 + 1) = false := by simpa using hall
-        simp only [hne, if_false, Bool.false_eq_true]
-        have hsnd := copyNumPart_snd (slice inp (p.numOff + 1 + (z : Int).toNat) ((↑(p.numLen - 1) : Int) - z).toNat) none (p.dp - 1) p.m
-        have hb := copyNumPart_bound (slice inp (p.numOff + 1 + (z : Int).toNat) ((↑(p.numLen - 1) : Int) - z).toNat) none (p.dp - 1) p.m
-        rw [nd_slice_none] at hsnd
-        constructor
-        · intro w hw
-          simp only [List.mem_append] at hw
-          rcases hw with hw | hw
-          · have := minusW_bound p.m w hw; omega
-          · have := hb w hw; rw [hsnd] at this
-            split at this <;> omega
-        · intro l hl; simp at hl; omega
-    · rename_i hc
-      simp only [Bool.and_eq_true, decide_eq_true_eq, not_and] at hc
+      · have := hb w hw; rw [hsnd] at this
+        split at this <;> omega
+    · intro l hl; simp at hl; omega
+  · have hne : ((z : Int) == p.dp - 1 + 1) = false := by simpa using hall
+    simp only [hne, if_false, Bool.false_eq_true]
+    have hsnd := copyNumPart_snd (slice inp (p.numOff + 1 + (z : Int).toNat) ((↑(p.numLen - 1) : Int) - z).toNat) none (p.dp - 1) p.m
+    have hb := copyNumPart_bound (slice inp (p.numOff + 1 + (z : Int).toNat) ((↑(p.numLen - 1) : Int) - z).toNat) none (p.dp - 1) p.m
+    rw [nd_slice_none] at hsnd
+    constructor
+    · intro w hw
+      simp only [List.mem_append] at hw
+      rcases hw with hw | hw
+      · have := minusW_bound p.m w hw; omega
+      · have := hb w hw; rw [hsnd] at this
+        split at this <;> omega
+    · intro l hl; simp at hl; omega
+
+/-- the same branch after `fixes/F14.diff`: every store is below `buf_len` -/
+theorem composeB2fixed_bounds (inp : Bytes) (p : Prep) (h : PrepOk p) (hdp : 0 < p.dp)
+    (_hl : p.leadingZero = true) (hlt : p.dp < (p.numLen : Int) - 1) : Bounded (composeB2fixed inp p) := by
+  obtain ⟨hm, hnl, hdec, hlz, hdot⟩ := h
+  unfold Bounded composeB2fixed
+  simp only []
+  have hnl' : (p.numLen + 65535) % 65536 = p.numLen - 1 := by omega
+  simp only [hnl']
+  have hz := countFwd_le inp (p.numOff + 1) (p.numOff + 1 + p.dp.toNat)
+  have hz' : (countFwd inp (p.numOff + 1) (p.numOff + 1 + p.dp.toNat) : Int) ≤ p.dp := by omega
+  generalize countFwd inp (p.numOff + 1) (p.numOff + 1 + p.dp.toNat) = z at hz'
+  by_cases hall : (z : Int) = p.dp
+  · simp only [hall, beq_self_eq_true, if_true]
+    have hsnd := copyNumPart_snd (slice inp (p.numOff + 1 + (p.dp - 1).toNat) ((↑(p.numLen - 1) : Int) - (p.dp - 1)).toNat) none 1 p.m
+    have hb := copyNumPart_bound (slice inp (p.numOff + 1 + (p.dp - 1).toNat) ((↑(p.numLen - 1) : Int) - (p.dp - 1)).toNat) none 1 p.m
+    rw [nd_slice_none] at hsnd
+    constructor
+    · intro w hw
+      simp only [List.mem_append] at hw
+      rcases hw with hw | hw
+      · have := minusW_bound p.m w hw; omega
+      · have := hb w hw; rw [hsnd] at this
+        split at this <;> omega
+    · intro l hl; simp at hl; omega
+  · have hne : ((z : Int) == p.dp) = false := by simpa using hall
+    simp only [hne, if_false, Bool.false_eq_true]
+    have hsnd := copyNumPart_snd (slice inp (p.numOff + 1 + (z : Int).toNat) ((↑(p.numLen - 1) : Int) - z).toNat) none (p.dp - z) p.m
+    have hb := copyNumPart_bound (slice inp (p.numOff + 1 + (z : Int).toNat) ((↑(p.numLen - 1) : Int) - z).toNat) none (p.dp - z) p.m
+    rw [nd_slice_none] at hsnd
+    constructor
+    · intro w hw
+      simp only [List.mem_append] at hw
+      rcases hw with hw | hw
+      · have := minusW_bound p.m w hw; omega
+      · have := hb w hw; rw [hsnd] at this
+        split at this <;> omega
+    · intro l hl; simp at hl; omega
+
+theorem composeB3_bounds (inp : Bytes) (p : Prep) (h : PrepOk p) (hdp : 0 < p.dp)
+    (_hl : p.leadingZero = false) (hlt : p.dp < p.numLen) : Bounded (composeB3 inp p) := by
+  obtain ⟨hm, hnl, hdec, hlz, hdot⟩ := h
+  unfold dotOf at hdot
+  unfold Bounded composeB3
+  simp only []
+  have hsnd := copyNumPart_snd (slice inp p.numOff p.numLen) p.decIdx p.dp p.m
+  have hb := copyNumPart_bound (slice inp p.numOff p.numLen) p.decIdx p.dp p.m
+  constructor
+  · intro w hw
+    simp only [List.mem_append] at hw
+    rcases hw with hw | hw
+    · have := minusW_bound p.m w hw; omega
+    · have := hb w hw; rw [hsnd] at this
+      cases hd : p.decIdx with
+      | none =>
+        rw [hd] at hdot this; simp at hdot; rw [nd_slice_none] at this
+        split at this <;> omega
+      | some i =>
+        have hi := hdec i hd
+        have hnd := nd_slice_some inp p.numOff p.numLen i hi
+        rw [hd] at hdot this
+        simp only [Option.isSome_some, Bool.true_and, if_true] at hdot
+        split at hdot
+        · rename_i he
+          simp only [beq_iff_eq] at he
+          split at this <;> omega
+        · split at this <;> omega
+  · intro l hl'; simp at hl'; omega
+
+theorem composeB4_bounds (inp : Bytes) (p : Prep) (h : PrepOk p) (hdp : 0 < p.dp)
+    (hl : p.leadingZero = true) (hge : (p.numLen : Int) - 1 ≤ p.dp) : Bounded (composeB4 inp p) := by
+  obtain ⟨hm, hnl, hdec, hlz, hdot⟩ := h
+  unfold Bounded composeB4
+  simp only []
+  have hd0 := hlz hl
+  have h1 : 1 ≤ p.numLen := by have := hdec 0 hd0; omega
+  have hnl' : (p.numLen + 65535) % 65536 = p.numLen - 1 := by omega
+  simp only [hnl']
+  have hz := countFwd_le inp (p.numOff + 1) (p.numOff + 1 + (p.numLen - 1))
+  generalize countFwd inp (p.numOff + 1) (p.numOff + 1 + (p.numLen - 1)) = z at hz
+  have hsnd := copyNumPart_snd (slice inp (p.numOff + 1 + z) ((↑(p.numLen - 1) : Int) - z).toNat) none p.dp p.m
+  have hb := copyNumPart_bound (slice inp (p.numOff + 1 + z) ((↑(p.numLen - 1) : Int) - z).toNat) none p.dp p.m
+  rw [nd_slice_none] at hsnd
+  have hins : ¬ (0 ≤ p.dp ∧ p.dp < ((((↑(p.numLen - 1) : Int) - z).toNat : Nat) : Int)) := by omega
+  simp only [hins, if_false, Nat.add_zero] at hsnd
+  constructor
+  · intro w hw
+    simp only [List.mem_append] at hw
+    rcases hw with (hw | hw) | hw
+    · have := minusW_bound p.m w hw; omega
+    · have := hb w hw; rw [hsnd] at this; omega
+    · have := memsetW_bound _ _ _ w hw; rw [hsnd] at this; omega
+  · intro l hl'
+    simp only [List.mem_cons, List.not_mem_nil, or_false] at hl'
+    rw [hsnd] at hl'; omega
+
+theorem composeB5_bounds (inp : Bytes) (p : Prep) (h : PrepOk p) (hdp : 0 < p.dp)
+    (hge : (p.numLen : Int) ≤ p.dp) : Bounded (composeB5 inp p) := by
+  obtain ⟨hm, hnl, hdec, hlz, hdot⟩ := h
+  unfold Bounded composeB5
+  simp only []
+  have hsnd := copyNumPart_snd (slice inp p.numOff p.numLen) p.decIdx p.dp p.m
+  have hb := copyNumPart_bound (slice inp p.numOff p.numLen) p.decIdx p.dp p.m
+  have hndle := nd_le p.decIdx (slice inp p.numOff p.numLen) 0
+  simp only [slice_length] at hndle
+  have hins : ¬ (0 ≤ p.dp ∧ p.dp < ((nd p.decIdx (slice inp p.numOff p.numLen) 0 : Nat) : Int)) := by omega
+  simp only [hins, if_false, Nat.add_zero] at hsnd
+  constructor
+  · intro w hw
+    simp only [List.mem_append] at hw
+    rcases hw with (hw | hw) | hw
+    · have := minusW_bound p.m w hw; omega
+    · have := hb w hw; rw [hsnd] at this; omega
+    · have := memsetW_bound _ _ _ w hw; rw [hsnd] at this; omega
+  · intro l hl'
+    simp only [List.mem_cons, List.not_mem_nil, or_false] at hl'
+    rw [hsnd] at hl'; omega
+
+/-- every store of the composition (before the final NUL) has an index `≤ buf_len`, i.e. inside the `buf_len + 1`
+    allocated bytes, and every length handed to `memset` / the copy loop is non-negative — for the source as it is
+    (whichever shape of the leading-zero branches the translator found) -/
+theorem compose_bounds (inp : Bytes) (p : Prep) (h : PrepOk p) : Bounded (compose inp p) := by
+  unfold compose
+  by_cases hdp : p.dp ≤ 0
+  · simp only [hdp, if_true]; exact composeB1_bounds inp p h hdp
+  · simp only [hdp, if_false]
+    have hdp' : 0 < p.dp := by omega
+    cases hl : p.leadingZero with
+    | true =>
       split
-      · -- no leading zero, point inside the digits
-        rename_i hlt
-        have hl : p.leadingZero = false := by
-          cases hx : p.leadingZero with
-          | false => rfl
-          | true => exact absurd hlt (hc hx)
-        have hsnd := copyNumPart_snd (slice inp p.numOff p.numLen) p.decIdx p.dp p.m
-        have hb := copyNumPart_bound (slice inp p.numOff p.numLen) p.decIdx p.dp p.m
-        constructor
-        · intro w hw
-          simp only [List.mem_append] at hw
-          rcases hw with hw | hw
-          · have := minusW_bound p.m w hw; omega
-          · have := hb w hw; rw [hsnd] at this
-            cases hd : p.decIdx with
-            | none =>
-              rw [hd] at hdot this; simp at hdot; rw [nd_slice_none] at this
-              split at this <;> omega
-            | some i =>
-              have hi := hdec i hd
-              have hnd := nd_slice_some inp p.numOff p.numLen i hi
-              rw [hd] at hdot this
-              simp only [Option.isSome_some, Bool.true_and, if_true] at hdot
-              split at hdot
-              · rename_i he
-                simp only [beq_iff_eq] at he
-                split at this <;> omega
-              · split at this <;> omega
-        · intro l hl'; simp at hl'; omega
-      · rename_i hge
+      · -- fixed source
+        simp only [Bool.true_and, Bool.not_true, Bool.false_and, decide_eq_true_eq, Bool.false_eq_true, if_false, if_true]
         split
-        · -- leading zero, integer result
-          rename_i hl
-          have hd0 := hlz hl
-          have h1 : 1 ≤ p.numLen := by have := hdec 0 hd0; omega
-          have hnl' : (p.numLen + 65535) % 65536 = p.numLen - 1 := by omega
-          simp only [hnl']
-          have hz := countFwd_le inp (p.numOff + 1) (p.numOff + 1 + (p.numLen - 1))
-          generalize countFwd inp (p.numOff + 1) (p.numOff + 1 + (p.numLen - 1)) = z at hz
-          have hsnd := copyNumPart_snd (slice inp (p.numOff + 1 + z) ((↑(p.numLen - 1) : Int) - z).toNat) none p.dp p.m
-          have hb := copyNumPart_bound (slice inp (p.numOff + 1 + z) ((↑(p.numLen - 1) : Int) - z).toNat) none p.dp p.m
-          rw [nd_slice_none] at hsnd
-          have hins : ¬ (0 ≤ p.dp ∧ p.dp < ((((↑(p.numLen - 1) : Int) - z).toNat : Nat) : Int)) := by omega
-          simp only [hins, if_false, Nat.add_zero] at hsnd
-          constructor
-          · intro w hw
-            simp only [List.mem_append] at hw
-            rcases hw with (hw | hw) | hw
-            · have := minusW_bound p.m w hw; omega
-            · have := hb w hw; rw [hsnd] at this; omega
-            · have := memsetW_bound _ _ _ w hw; rw [hsnd] at this; omega
-          · intro l hl'
-            simp only [List.mem_cons, List.not_mem_nil, or_false] at hl'
-            rw [hsnd] at hl'; omega
-        · -- no leading zero, integer result
-          have hsnd := copyNumPart_snd (slice inp p.numOff p.numLen) p.decIdx p.dp p.m
-          have hb := copyNumPart_bound (slice inp p.numOff p.numLen) p.decIdx p.dp p.m
-          have hndle := nd_le p.decIdx (slice inp p.numOff p.numLen) 0
-          simp only [slice_length] at hndle
-          have hins : ¬ (0 ≤ p.dp ∧ p.dp < ((nd p.decIdx (slice inp p.numOff p.numLen) 0 : Nat) : Int)) := by omega
-          simp only [hins, if_false, Nat.add_zero] at hsnd
-          constructor
-          · intro w hw
-            simp only [List.mem_append] at hw
-            rcases hw with (hw | hw) | hw
-            · have := minusW_bound p.m w hw; omega
-            · have := hb w hw; rw [hsnd] at this; omega
-            · have := memsetW_bound _ _ _ w hw; rw [hsnd] at this; omega
-          · intro l hl'
-            simp only [List.mem_cons, List.not_mem_nil, or_false] at hl'
-            rw [hsnd] at hl'; omega
+        · rename_i hlt; exact composeB2fixed_bounds inp p h hdp' hl hlt
+        · rename_i hge; exact composeB4_bounds inp p h hdp' hl (by omega)
+      · simp only [Bool.true_and, decide_eq_true_eq, if_true]
+        split
+        · rename_i hlt; exact composeB2orig_bounds inp p h hdp' hl hlt
+        · rename_i hge
+          first
+            | exact composeB4_bounds inp p h hdp' hl (by omega)
+            | (rw [if_neg hge]; exact composeB4_bounds inp p h hdp' hl (by omega))
+    | false =>
+      split
+      · simp only [Bool.false_and, Bool.not_false, Bool.true_and, decide_eq_true_eq, Bool.false_eq_true, if_false]
+        split
+        · rename_i hlt; exact composeB3_bounds inp p h hdp' hl hlt
+        · rename_i hge; exact composeB5_bounds inp p h hdp' (by omega)
+      · simp only [Bool.false_and, Bool.false_eq_true, if_false]
+        split
+        · rename_i hlt; exact composeB3_bounds inp p h hdp' hl hlt
+        · rename_i hge; exact composeB5_bounds inp p h hdp' (by omega)
 
 /-! ## the prepared quantities -/
 
@@ -443,6 +518,7 @@ theorem expNumber_bounds (inp : Bytes) (e : Nat) (x : ExpOut)
         injection h with h
         subst h
         obtain ⟨hw, hl⟩ := compose_bounds inp (prep inp e (expVal inp e)) (prep_ok inp e (expVal inp e) (by omega) hlz)
+        unfold Bounded at *
         constructor
         · intro w hw'
           simp only [ExpOut.alloc, List.mem_append, List.mem_cons, List.not_mem_nil, or_false] at hw' ⊢
